@@ -1,1 +1,328 @@
-(* Model/Iter.v -- stub, to be filled in *)
+(* Model/Iter.v -- src/sparse.rs:303-616: the four Krylov solvers of `impl Sparse<f64>`
+   (solve_bicg after the repair d2fe329, solve_bicgstab, solve_cg, solve_qmr), statement by
+   statement, over any arithmetic with a square root (SArith).  Definitions only.
+
+   * The matrix enters only through  A*v  (Sparse::multiply)  and  A^T*v  (transpose_multiply):
+     they are the Section variables [mulA], [mulAT]; [rows], [cols] are the public fields the
+     three guards at the head of every solver read.
+   * `for i in 1..=max_iter` / `while iter < max_iter { iter += 1; ..}` are [iloop] with
+     fuel = max_iter; running out of fuel returns the code's own `Err(resid)`.
+   * `x` is `&mut Vector<f64>`: the model returns the final contents of x next to the Result.
+   * Every operator is the one the code uses: `v * s` = [vscale], `s * v` = [vscale_l],
+     `v / s` = [vdiv], `+`/`-`/`+=`/`-=` with their size guards, `dot` with its guard,
+     `identity_preconditioner` with its guard and its element loop, `norm_2` as
+     sqrt (sum |x|*|x|)  (the code writes powf(|x|, 2.0)), f64 `==`/`<=`/`<` as eqb/leb/ltb.
+   * Ghost output (read by nothing in the algorithm): [g_t] = the vector whose norm the last
+     convergence test used (the recurrence residual), [g_X] = the largest 2-norm reached by any
+     iterate or update term -- the quantity the drift allowance of the C08 oracle needs and
+     that is not observable from outside the solver. *)
+From Coq Require Import List Arith Lia Bool ZArith.
+From OV Require Import Base.Panic Base.Arith Base.Flat Model.Vector Model.Matrix Model.Sparse.
+Import ListNotations.
+Local Open Scope arith_scope.
+Local Open Scope bool_scope.
+
+Section Iter.
+Context {A : SArith}.
+Notation F := (T (SA A)).
+
+(* Vector<f64>::norm_2 (vec_f64.rs:30-36) *)
+Definition norm2 (v : list F) : F :=
+  sqrt (fold_left (fun acc x => acc + abs x * abs x) v zero).
+
+Inductive iresult := IOk (k : nat) | IErr (e : F).          (* Result<usize, f64> *)
+Record ghost := mkG { g_t : list F; g_X : F }.
+Definition iout := (iresult * list F * ghost)%type.         (* (Result, final x, ghost) *)
+
+Definition tmax (a b : F) : F := if ltb a b then b else a.
+(* ghost bookkeeping after `*x += u`: largest norm of an update term / of an iterate *)
+Definition track (X : F) (u x : list F) : F := tmax (tmax X (norm2 u)) (norm2 x).
+
+Inductive step_out (S : Type) := Continue (s : S) | Return (o : iout).
+Arguments Continue {S} s. Arguments Return {S} o.
+
+(* the iteration loops: i = 1, 2, ..., fuel iterations at most *)
+Fixpoint iloop {S} (body : nat -> S -> res (step_out S)) (final : S -> iout)
+         (fuel i : nat) (s : S) : res iout :=
+  match fuel with
+  | 0 => Ok (final s)
+  | Datatypes.S f =>
+      let* o := body i s in
+      match o with
+      | Return o => Ok o
+      | Continue s' => iloop body final f (Datatypes.S i) s'
+      end
+  end.
+
+Section Solvers.
+Variables (mulA mulAT : list F -> res (list F)) (rows cols : nat).
+
+(* identity_preconditioner(&self, b, x)  (sparse.rs:236-243) *)
+Definition ident_pre (b x : list F) : res (list F) :=
+  if negb (rows =? length b) then Panic Guard else
+  for_ 0 rows (fun i x => let* bi := rd b i in upd x i bi) x.
+
+(* the three guards every solver starts with *)
+Definition guards (b x : list F) : res unit :=
+  if negb (rows =? length b) then Panic Guard else
+  if negb (rows =? cols) then Panic Guard else
+  if negb (length b =? length x) then Panic Guard else Ok tt.
+
+Definition zeros : list F := repeat zero rows.                (* Vector::new( self.rows, 0.0 ) *)
+Definition nz (nb : F) : F := if eqb nb zero then one else nb. (* if normb == 0.0 { normb = 1.0; } *)
+
+(* ------------------------------------------------------------------ solve_cg (441-487) *)
+Record cg_st := mkCG { cg_x : list F; cg_r : list F; cg_p : list F; cg_z : list F;
+                       cg_rho1 : F; cg_resid : F; cg_X : F }.
+
+Definition cg_body (tol normb : F) (i : nat) (s : cg_st) : res (step_out cg_st) :=
+  let* z := ident_pre (cg_r s) (cg_z s) in
+  let* rho := dot (cg_r s) z in
+  let* p := (if i =? 1 then Ok z
+             else let* beta := div rho (cg_rho1 s) in vadd z (vscale (cg_p s) beta)) in
+  let* q := mulA p in
+  let* pq := dot p q in
+  let* alpha := div rho pq in
+  let u := vscale p alpha in
+  let* x := vadd (cg_x s) u in
+  let* r := vsub (cg_r s) (vscale q alpha) in
+  let* resid := div (norm2 r) normb in
+  let X := track (cg_X s) u x in
+  if leb resid tol then Ok (Return (IOk i, x, mkG r X))
+  else Ok (Continue (mkCG x r p z rho resid X)).
+
+Definition cg_final (s : cg_st) : iout := (IErr (cg_resid s), cg_x s, mkG (cg_r s) (cg_X s)).
+
+Definition solve_cg (b x : list F) (max_iter : nat) (tol : F) : res iout :=
+  let* _ := guards b x in
+  let normb := norm2 b in
+  let* ax := mulA x in
+  let* r := vsub b ax in
+  let normb := nz normb in
+  let* resid := div (norm2 r) normb in
+  let X := norm2 x in
+  if leb resid tol then Ok (IOk 0, x, mkG r X) else
+  iloop (cg_body tol normb) cg_final max_iter 1 (mkCG x r zeros zeros one resid X).
+
+(* ------------------------------------------------------------------ solve_bicg (309-369) *)
+Record bicg_st := mkBI { bi_x : list F; bi_r : list F; bi_rr : list F; bi_z : list F; bi_zz : list F;
+                         bi_p : list F; bi_pp : list F; bi_rho2 : F; bi_err : F; bi_X : F }.
+
+Definition bicg_body (itol : nat) (tol bnrm : F) (i : nat) (s : bicg_st) : res (step_out bicg_st) :=
+  let* zz := ident_pre (bi_rr s) (bi_zz s) in
+  let* rho_1 := dot (bi_z s) (bi_rr s) in
+  let* ppp := (if i =? 1 then Ok (bi_z s, zz)
+               else let* beta := div rho_1 (bi_rho2 s) in
+                    let* p := vadd (bi_z s) (vscale (bi_p s) beta) in
+                    let* pp := vadd zz (vscale (bi_pp s) beta) in Ok (p, pp)) in
+  let '(p, pp) := ppp in
+  let* z := mulA p in
+  let* zpp := dot z pp in
+  let* alpha := div rho_1 zpp in
+  let* zz := mulAT pp in
+  let u := vscale p alpha in
+  let* x := vadd (bi_x s) u in
+  let* r := vsub (bi_r s) (vscale z alpha) in
+  let* rr := vsub (bi_rr s) (vscale zz alpha) in
+  let* z := ident_pre r z in
+  let* err := (if itol =? 1 then div (norm2 r) bnrm else Ok (bi_err s)) in
+  let* err := (if itol =? 2 then div (norm2 z) bnrm else Ok err) in
+  let X := track (bi_X s) u x in
+  if leb err tol then Ok (Return (IOk i, x, mkG (if itol =? 2 then z else r) X))
+  else Ok (Continue (mkBI x r rr z zz p pp rho_1 err X)).
+
+Definition bicg_final (itol : nat) (s : bicg_st) : iout :=
+  (IErr (bi_err s), bi_x s, mkG (if itol =? 2 then bi_z s else bi_r s) (bi_X s)).
+
+(* start-up shared by the repaired and the legacy variant: guards, r, rr, bnrm, z *)
+Definition bicg_start (itol : nat) (b x : list F) : res (list F * F * list F) :=
+  let* _ := guards b x in
+  let* ax := mulA x in
+  let* r := vsub b ax in
+  let* bz := (if itol =? 1 then
+                let bnrm := norm2 b in
+                let* z := ident_pre r zeros in Ok (bnrm, z)
+              else if itol =? 2 then
+                let* z := ident_pre b zeros in
+                let bnrm := norm2 z in
+                let* z := ident_pre r z in Ok (bnrm, z)
+              else Panic Guard) in
+  Ok (r, fst bz, snd bz).
+
+Definition solve_bicg (itol : nat) (b x : list F) (max_iter : nat) (tol : F) : res iout :=
+  let* st := bicg_start itol b x in
+  let '(r, bnrm, z) := st in
+  let bnrm := nz bnrm in
+  let* err := div (norm2 z) bnrm in
+  let X := norm2 x in
+  if leb err tol then Ok (IOk 0, x, mkG (if itol =? 2 then z else r) X) else
+  iloop (bicg_body itol tol bnrm) (bicg_final itol) max_iter 1
+        (mkBI x r r z zeros zeros zeros one err X).
+
+(* ------------------------------------------------------------------ solve_bicgstab (374-436) *)
+Record stab_st := mkST { st_x : list F; st_r : list F; st_p : list F; st_phat : list F; st_shat : list F;
+                         st_v : list F; st_rho2 : F; st_alpha : F; st_omega : F; st_resid : F; st_X : F }.
+
+Definition stab_body (rtilde : list F) (tol normb : F) (i : nat) (s : stab_st) : res (step_out stab_st) :=
+  let* rho_1 := dot rtilde (st_r s) in
+  if eqb rho_1 zero then
+    let* e := div (norm2 (st_r s)) normb in Ok (Return (IErr e, st_x s, mkG (st_r s) (st_X s)))
+  else
+  let* p := (if i =? 1 then Ok (st_r s)
+             else let* q1 := div rho_1 (st_rho2 s) in
+                  let* q2 := div (st_alpha s) (st_omega s) in
+                  let beta := q1 * q2 in
+                  let* w := vsub (st_p s) (vscale_l (st_omega s) (st_v s)) in
+                  vadd (st_r s) (vscale_l beta w)) in
+  let* phat := ident_pre p (st_phat s) in
+  let* v := mulA phat in
+  let* rv := dot rtilde v in
+  let* alpha := div rho_1 rv in
+  let* sv := vsub (st_r s) (vscale v alpha) in
+  let* resid := div (norm2 sv) normb in
+  if leb resid tol then
+    let u := vscale phat alpha in
+    let* x := vadd (st_x s) u in
+    Ok (Return (IOk i, x, mkG sv (track (st_X s) u x)))
+  else
+  let* shat := ident_pre sv (st_shat s) in
+  let* t := mulA shat in
+  let* ts := dot t sv in
+  let* tdt := dot t t in
+  let* omega := div ts tdt in
+  let u1 := vscale_l alpha phat in
+  let* x := vadd (st_x s) u1 in
+  let X := track (st_X s) u1 x in
+  let u2 := vscale_l omega shat in
+  let* x := vadd x u2 in
+  let X := track X u2 x in
+  let* r := vsub sv (vscale t omega) in
+  let* resid := div (norm2 r) normb in
+  if ltb resid tol then Ok (Return (IOk i, x, mkG r X)) else
+  if eqb omega zero then Ok (Return (IErr resid, x, mkG r X)) else
+  Ok (Continue (mkST x r p phat shat v rho_1 alpha omega resid X)).
+
+Definition stab_final (s : stab_st) : iout := (IErr (st_resid s), st_x s, mkG (st_r s) (st_X s)).
+
+Definition solve_bicgstab (b x : list F) (max_iter : nat) (tol : F) : res iout :=
+  let* _ := guards b x in
+  let normb := norm2 b in
+  let* ax := mulA x in
+  let* r := vsub b ax in
+  let rtilde := r in
+  let normb := nz normb in
+  let* resid := div (norm2 r) normb in
+  let X := norm2 x in
+  if leb resid tol then Ok (IOk 0, x, mkG r X) else
+  iloop (stab_body rtilde tol normb) stab_final max_iter 1
+        (mkST x r zeros zeros zeros zeros one one one resid X).
+
+(* ------------------------------------------------------------------ solve_qmr (492-615) *)
+Record qmr_st := mkQ { q_x : list F; q_r : list F; q_vt : list F; q_y : list F; q_wt : list F; q_z : list F;
+                       q_p : list F; q_q : list F; q_d : list F; q_s : list F;
+                       q_rho : F; q_xi : F; q_gamma : F; q_eta : F; q_theta : F; q_ep : F;
+                       q_resid : F; q_X : F }.
+
+Definition qmr_final (s : qmr_st) : iout := (IErr (q_resid s), q_x s, mkG (q_r s) (q_X s)).
+
+Definition qmr_body (tol normb : F) (i : nat) (s : qmr_st) : res (step_out qmr_st) :=
+  let bail := Ok (Return (qmr_final s)) in                      (* return Err( resid ) *)
+  if eqb (q_rho s) zero then bail else
+  if eqb (q_xi s) zero then bail else
+  let* v := vdiv (q_vt s) (q_rho s) in
+  let* y := vdiv (q_y s) (q_rho s) in
+  let* w := vdiv (q_wt s) (q_xi s) in
+  let* z := vdiv (q_z s) (q_xi s) in
+  let* delta := dot z y in
+  if eqb delta zero then bail else
+  let y_tld := y in
+  let z_tld := z in
+  let* pq := (if 1 <? i then
+                let* c1 := div (q_xi s * delta) (q_ep s) in
+                let* p := vsub y_tld (vscale_l c1 (q_p s)) in
+                let* c2 := div (q_rho s * delta) (q_ep s) in
+                let* q := vsub z_tld (vscale_l c2 (q_q s)) in Ok (p, q)
+              else Ok (y_tld, z_tld)) in
+  let '(p, q) := pq in
+  let* p_tld := mulA p in
+  let* ep := dot q p_tld in
+  if eqb ep zero then bail else
+  let* beta := div ep delta in
+  if eqb beta zero then bail else
+  let* v_tld := vsub p_tld (vscale_l beta v) in
+  let y := v_tld in
+  let rho_1 := q_rho s in
+  let rho := norm2 y in
+  let* w_tld := mulAT q in
+  let* w_tld := vsub w_tld (vscale_l beta w) in
+  let z := w_tld in
+  let xi := norm2 z in
+  let gamma_1 := q_gamma s in
+  let theta_1 := q_theta s in
+  let* theta := div rho (gamma_1 * beta) in
+  let* gamma := div one (sqrt (one + theta * theta)) in
+  if eqb gamma zero then bail else
+  let* eta := div (((- (q_eta s)) * rho_1) * gamma * gamma) ((beta * gamma_1) * gamma_1) in
+  let c := ((theta_1 * theta_1) * gamma) * gamma in
+  let* ds := (if 1 <? i then
+                let* d := vadd (vscale_l eta p) (vscale_l c (q_d s)) in
+                let* sv := vadd (vscale_l eta p_tld) (vscale_l c (q_s s)) in Ok (d, sv)
+              else Ok (vscale_l eta p, vscale_l eta p_tld)) in
+  let '(d, sv) := ds in
+  let* x := vadd (q_x s) d in
+  let* r := vsub (q_r s) sv in
+  let* resid := div (norm2 r) normb in
+  let X := track (q_X s) d x in
+  if leb resid tol then Ok (Return (IOk i, x, mkG r X)) else
+  Ok (Continue (mkQ x r v_tld y w_tld z p q d sv rho xi gamma eta theta ep resid X)).
+
+Definition solve_qmr (b x : list F) (max_iter : nat) (tol : F) : res iout :=
+  let* _ := guards b x in
+  let normb := norm2 b in
+  let* ax := mulA x in
+  let* r := vsub b ax in
+  let normb := nz normb in
+  let* resid := div (norm2 r) normb in
+  let X := norm2 x in
+  if leb resid tol then Ok (IOk 0, x, mkG r X) else
+  let rho := norm2 r in
+  let xi := norm2 r in
+  iloop (qmr_body tol normb) qmr_final max_iter 1
+        (mkQ x r r r r r zeros zeros zeros zeros rho xi one (- one) zero one resid X).
+
+(* ------------------------------------------------------------------ one entry point *)
+Inductive solver := CG | BiCG (itol : nat) | BiCGSTAB | QMR.
+
+Definition run (s : solver) (b x : list F) (max_iter : nat) (tol : F) : res iout :=
+  match s with
+  | CG => solve_cg b x max_iter tol
+  | BiCG itol => solve_bicg itol b x max_iter tol
+  | BiCGSTAB => solve_bicgstab b x max_iter tol
+  | QMR => solve_qmr b x max_iter tol
+  end.
+
+End Solvers.
+
+(* ------------------------------------------------------------------ running the model.
+   The matrix-vector products are instantiated by the CSC model of Model/Sparse.v
+   (sp_mul = Sparse::multiply, sp_tmul = Sparse::transpose_multiply), the matrix is built from
+   the triplets exactly as the executor builds it (Sparse::from_triplets). *)
+Definition run_sparse (sv : solver) (s : sparse (SA A)) (b x : list F) (n : nat) (tol : F) : res iout :=
+  run (sp_mul s) (sp_tmul s) (sp_rows s) (sp_cols s) sv b x n tol.
+Definition run_trip (sv : solver) (r c : nat) (ts : list (triplet (SA A))) (b x : list F) (n : nat) (tol : F) : res iout :=
+  let* s := sp_from_triplets r c ts in run_sparse sv s b x n tol.
+
+(* canonical output: tag (0 = Ok, 1 = Err), count or error, x, the budget *)
+Definition it_flat (fs : F -> list Z) (n : nat) (o : res iout) : list Z :=
+  fl_res (fun o : iout =>
+    (match fst (fst o) with IOk k => fl_nat 0 ++ fl_nat k | IErr e => fl_nat 1 ++ fs e end)
+    ++ fl_list fs (snd (fst o)) ++ fl_nat n) o.
+(* ... followed by the ghost trace value X (for the oracle of C08 only) *)
+Definition it_flat_tr (fs : F -> list Z) (n : nat) (o : res iout) : list Z :=
+  it_flat fs n o ++ match o with Ok o => fs (g_X (snd o)) | Panic _ => [] end.
+
+End Iter.
+
+Arguments iresult A : clear implicits.
+Arguments ghost A : clear implicits.
+Arguments iout A : clear implicits.
